@@ -8,7 +8,8 @@ from vf import e2e, gen, hooks, pipeline
 from vf.core import Shard, rng_for
 
 PROPERTY = 'C16'
-RULE = ('(a) exhaustive small cases: vectorisePositions on every multiset of 1-4 labels on 0..13, resolutions 1/2/3/5, '
+RULE = ('[also: a wrapper on OpticalMap.getSequence end to end requires every vector to be that of the map\'s own labels - second-pass fragments share id and length with their molecule] '
+        '(a) exhaustive small cases: vectorisePositions on every multiset of 1-4 labels on 0..13, resolutions 1/2/3/5, '
         'six starts (negative included), eight ends (None, before the last label, beyond it); blur on every bit vector '
         'up to length 8 (quick) / 12 (thorough), radius 0-3; toRelativeGenomicPositions for resolutions 1-11 (quick), '
         'plus 100/700/1400/1500 (thorough), three starts, every coordinate of five bins; (b) random label lists with '
@@ -23,7 +24,8 @@ MINIMUMS = {'vectorise-calls': {'quick': 300000, 'thorough': 1000000}, 'blur-cal
             'conv-calls': {'quick': 900, 'thorough': 15000}, 'select-calls': {'quick': 2000, 'thorough': 20000},
             'e2e-selections': {'quick': 300, 'thorough': 3000}, 'e2e-selections-truncated': {'quick': 100, 'thorough': 1000},
             'e2e-correlations-truncated': {'quick': 50, 'thorough': 500},
-            'e2e-positionsToSequence-calls': {'quick': 5000, 'thorough': 50000}, 'e2e-positionsToSequence-negative-start': {'quick': 20, 'thorough': 300}}
+            'e2e-positionsToSequence-calls': {'quick': 5000, 'thorough': 50000}, 'e2e-positionsToSequence-negative-start': {'quick': 20, 'thorough': 300},
+            'e2e-getSequence-calls': {'quick': 5000, 'thorough': 50000}, 'e2e-getSequence-calls-on-fragments': {'quick': 200, 'thorough': 3000}}
 
 
 def plan(tier, seed):
@@ -308,7 +310,21 @@ def judge_e2e(case, wd, sh):
         if start < 0:
             sh.count('e2e-positionsToSequence-negative-start')
         judge_sequence_result([int(x) for x in res], list(positions), self_.resolution, self_.blurRadius, start, end, sh, slim())
-    st = [hooks.wrapped(sgm.SequenceGenerator, 'positionsToSequence', hooks.observing(after_seq)),
+    def after_getseq(a, k, res, snap):
+        self_, g = a[0], a[1]
+        rev = a[2] if len(a) > 2 else k.get('reverseStrand', False)
+        start = a[3] if len(a) > 3 else k.get('start', 0)
+        end = a[4] if len(a) > 4 else k.get('end')
+        sh.count('e2e-getSequence-calls')
+        if self_.shift or (self_.positions and self_.positions[0] != 0 and self_.moleculeId in qids):
+            sh.count('e2e-getSequence-calls-on-fragments')
+        out = [int(x) for x in res]
+        if rev:
+            out = out[::-1]
+        judge_sequence_result(out, list(self_.positions), g.resolution, g.blurRadius, start, end, sh, slim())
+    qids = {m[0] for m in case['queries']}
+    st = [hooks.wrapped(om.OpticalMap, 'getSequence', hooks.observing(after_getseq)),
+          hooks.wrapped(sgm.SequenceGenerator, 'positionsToSequence', hooks.observing(after_seq)),
           hooks.wrapped(om, 'find_peaks', mk_fp), hooks.wrapped(om.OpticalMap, 'getInitialAlignment', mk_gia),
           hooks.wrapped(psel.PeaksSelector, 'selectPeaks', mk_sel)]
     obs = e2e.observe(case, wd, trace=False, cands=False, extra_ctx=st)
@@ -318,7 +334,7 @@ def judge_e2e(case, wd, sh):
 def run_e2e(spec, sh):
     for i in range(spec['cases']):
         rng = rng_for('C16e2e', spec['seed'], spec['shard'], i)
-        case = gen.pipeline_case(rng, ['clean', 'noisy', 'noisy'], nq=10, nref=rng.randint(1, 4), mode='separate',
+        case = gen.pipeline_case(rng, ['clean', 'noisy', 'noisy', 'sandwich', 'partial'], nq=10, nref=rng.randint(1, 4), mode='separate',
                                  param_prob=0.0, ref_kw={'repeats': rng.random() < 0.6})
         case['params']['p'] = rng.choice([1, 2, 3, 6])
         case['params']['md'] = rng.choice([20000, 1400, 5000])
